@@ -22,10 +22,9 @@ def val (c : UInt8) : Option Nat :=
 def decode : Bytes → Option Bytes
   | [] => some []
   | [_] => none
-  | a :: b :: rest => do
-    let x ← val a
-    let y ← val b
-    let r ← decode rest
-    pure (UInt8.ofNat (x * 16 + y) :: r)
+  | a :: b :: rest =>
+    match val a, val b, decode rest with
+    | some x, some y, some r => some (UInt8.ofNat (x * 16 + y) :: r)
+    | _, _, _ => none
 
 end Abverif.Crypto.HexText
